@@ -536,6 +536,8 @@ func (e *c18env) decPaths() int64 {
 			full[i] = 0xee
 		}
 		var cnt int64
+		// REUSED decoder objects: one per codec, fed every length (shorter and longer than before) in turn
+		recs := [4]path.Path{&scion.Raw{}, &scion.Decoded{}, &onehop.Path{}, &epic.Path{}}
 		for L := 0; L <= len(full); L++ {
 			for dec := 0; dec < 5; dec++ {
 				in := make([]byte, L)
@@ -598,6 +600,27 @@ func (e *c18env) decPaths() int64 {
 				if pp.Len() != need {
 					e.bad(fmt.Sprintf("dec-field:path-codec-%d:Len", dec), fmt.Sprintf("%s: Len()=%d documented %d", it.nm, pp.Len(), need))
 					continue
+				}
+				{
+					in2 := make([]byte, L)
+					copy(in2, full)
+					rp := recs[dec]
+					var rerr error
+					out2 := make([]byte, need)
+					if p := mc.Safely(func() {
+						if rerr = rp.DecodeFromBytes(in2); rerr == nil && rp.Len() == need {
+							rerr = rp.SerializeTo(out2)
+						}
+					}); p != nil || rerr != nil || rp.Len() != need {
+						e.bad(fmt.Sprintf("dec-history-dependent:path-codec-%d", dec), fmt.Sprintf("%s %x: reused decoder: %v %v Len %d (fresh accepted, Len %d)",
+							it.nm, orig, p, rerr, rp.Len(), need))
+						continue
+					}
+					fr := make([]byte, need)
+					if err := pp.SerializeTo(fr); err != nil || !bytes.Equal(fr, out2) {
+						e.bad(fmt.Sprintf("dec-history-dependent:path-codec-%d", dec), fmt.Sprintf("%s %x: reused decoder re-serializes to %x, fresh to %x", it.nm, orig, out2, fr))
+						continue
+					}
 				}
 				out := make([]byte, need)
 				if p := mc.Safely(func() { err = pp.SerializeTo(out) }); p != nil || err != nil {
@@ -966,7 +989,7 @@ func TestC18(t *testing.T) {
 	r := mc.NewRun(t, "C18", mc.Exploration)
 	r.Rule = "encoder direction: every enumerated header VALUE is a distinct tuple of field values (full product of boundary " +
 		"values {0,1,max-1,max} inside each field group, every position, every address type/length code, every path shape " +
-		"<=(3,3,3) plus 5 large ones, option sequences up to the tier's length) and is non-trivial by construction; decoder " +
+		"<=(3,3,3) plus 5 large ones, option sequences up to the tier's length, Reset histories on one authenticator option) and is non-trivial by construction; decoder " +
 		"direction: every case is a distinct byte string = spec-built seed packet x one mutation (or two, pair families); " +
 		"counted per family"
 	e := &c18env{r: r}
@@ -984,6 +1007,7 @@ func TestC18(t *testing.T) {
 	timed("enc_paths", func() { r.Extra["enc_path_cases"] = e.encPaths() })
 	timed("enc_hosts", func() { r.Extra["enc_host_cases"] = e.encHosts() })
 	timed("enc_ext", func() { r.Extra["enc_extension_cases"] = e.encExt() })
+	timed("enc_reuse", func() { r.Extra["enc_reused_object_cases"] = e.encReuse() })
 	timed("enc_l4", func() { r.Extra["enc_l4_cases"] = e.encL4() })
 	timed("dec_paths", func() { r.Extra["dec_path_codec_cases"] = e.decPaths() })
 	timed("dec", e.dec)
@@ -1001,7 +1025,9 @@ func TestC18(t *testing.T) {
 		"with FixLengths the serializer may insert padding options: option lists are compared modulo Pad1/PadN and each " +
 			"option must sit at an offset satisfying its xn+y alignment",
 		"a recycling layer (RecyclePaths) keeps unknown path types as opaque bytes; a fresh layer rejects them; both accepted",
+		"reused objects: after Reset / re-assignment of all exported fields an object must behave like a fresh one; that a Reset of an " +
+			"option decoded from a packet writes into that packet's buffer (documented buffer reuse) is not judged",
 		"header values outside the wire domain (FlowID >= 2^20, option data > 255 bytes, address length != DL/SL) are not header values",
 	}
-	r.Finish(10)
+	r.Finish(11)
 }
